@@ -15,16 +15,34 @@ and quotes inside; raw U+2028 / U+2029 / NEL / FS / GS / RS / VT / FF characters
 and comments; a `#` inside a string literal on a line that ends in a backslash continuation; decorators (plain, with multi-line arguments, wrapping with functools.wraps);
 multi-line signatures; several simple statements per physical line joined by `;` (at module level, in class
 bodies and in function bodies, each creating lambdas with equal / different signatures); several lambdas per line with equal / different signatures, nested lambdas,
-lambdas spanning lines, lambdas as default values and decorator arguments.
+lambdas spanning lines, lambdas as default values and decorator arguments; lambdas and defs carrying `__wrapped__` (functools.wraps,
+update_wrapper, manual attribute) whose own parameters differ from the target's, next to a lambda with the target's
+parameter list.
 
 `unsafe=True` adds the constructs of the known findings (backslash-newline inside a string literal,
-at the end of a comment, between two adjacent tokens).
+at the end of a comment, between two adjacent tokens; a lambda with a foreign `__signature__` attribute).
 """
 import random
 
 HEADER = '''import functools
 import contextlib
+import inspect
 REG = {}
+def tgt1(v):
+    return v
+def tgt2(a, b=1):
+    return a
+def _setw(f, t):
+    f.__wrapped__ = t
+    return f
+def _setsig(f, t):
+    f.__signature__ = inspect.signature(t)
+    return f
+def _wrapsig(t):
+    def d(f):
+        f.__wrapped__ = t
+        return f
+    return d
 def deco(f):
     return f
 def deco_args(*a, **k):
@@ -215,11 +233,40 @@ class Gen(object):
         for ids in regs:
             self.nested_lams(ind, ids)
 
+    def wrapped_lambdas(self, ind):
+        """a lambda carrying __wrapped__ (functools.wraps / update_wrapper / manual attribute) whose own parameters
+        differ from the wrapped target's, next to a lambda that has the target's parameter list; with
+        sig_override (known-finding stream) a __signature__ attribute instead"""
+        r = self.rnd
+        tgt, tsig = r.choice([('tgt1', 'v'), ('tgt2', 'a, b=1')])
+        own = r.choice(['*a, **k', 'x, y', '', 'v, w', '*args'])
+        t1, i1 = self.lam(own)
+        t2, i2 = self.lam(tsig)
+        forms = ['functools.wraps(%s)(%%s)' % tgt, 'functools.update_wrapper(%%s, %s)' % tgt, '_setw(%%s, %s)' % tgt]
+        if self.unsafe and r.random() < 0.5:
+            forms = ['_setsig(%%s, %s)' % tgt]
+            self.unsafe_kinds.add('sigoverride')
+        w = r.choice(forms) % t1
+        parts = [('l%d' % i1[0], w), ('l%d' % i2[0], '(%s)' % t2)]
+        if r.random() < 0.3:
+            t3, i3 = self.lam(r.choice([own, 'q']))
+            parts.append(('l%d' % i3[0], '(%s)' % t3))
+        r.shuffle(parts)
+        if r.random() < 0.7:
+            self.emit(ind, '%s = %s' % (', '.join('REG[%r]' % k for k, _ in parts), ', '.join(v for _, v in parts)))
+        else:
+            self.emit(ind, '; '.join('REG[%r] = %s' % kv for kv in parts))
+        for ids in (i1, i2):
+            self.nested_lams(ind, ids)
+
     def lambdas(self, ind):
         r = self.rnd
         k = r.random()
         if r.random() < 0.3:
             self.semi_lambdas(ind)
+            return
+        if r.random() < 0.2:
+            self.wrapped_lambdas(ind)
             return
         if k < 0.35:
             t, ids = self.lam()
@@ -311,9 +358,11 @@ class Gen(object):
             self.emit(ind, '@deco')
         elif k < 0.3:
             self.emit(ind, '@deco_args(1,\n%s2,  # c\n%sk=%s)' % (self.ws(), self.ws(), self.string()))
-        elif k < 0.38:
+        elif k < 0.34:
             self.emit(ind, '@wrapping')
             wrapped = True
+        elif k < 0.38:
+            self.emit(ind, '@_wrapsig(%s)' % r.choice(['tgt1', 'tgt2']))
         elif k < 0.45:
             t, ids = self.lam()
             self.emit(ind, '@deco_args(_reg(%r, %s))' % ('l%d' % ids[0], t))
